@@ -40,4 +40,25 @@ META = {
                         "treated as band"],
         "soft_s": {"quick": 200, "thorough": 3000},
     },
+    "C01": {
+        "level": "exploration",
+        "rule": ("cases = (contract pair, vars_to_keep, simplify, tactics_order): the repository's stored compositions "
+                 "in both call orders under 8 tactic orders and both simplify flags, seeded perturbations of them, "
+                 "and generated pairs over 7 wirings (independent, cascade both orders, shared inputs, feedback, "
+                 "mixed, fan) with gain-type and random sparse contents, redundant terms, kept variables. The oracle "
+                 "decides A_C & hon(C1) & hon(C2) & (viol A_1 | viol A_2 | viol G_C) UNSAT on every returned result. "
+                 "Non-trivial = compose returned a contract; distinct = case digests."),
+        "required": ["reach:returned:wiring:indep", "reach:returned:wiring:cascade", "reach:returned:wiring:cascade_rev",
+                     "reach:returned:wiring:shared_in", "reach:returned:wiring:feedback", "reach:returned:wiring:mixed",
+                     "reach:returned:wiring:corpus",
+                     "reach:returned:branch:self-helps-other", "reach:returned:branch:other-helps-self",
+                     "reach:returned:branch:neither", "reach:returned:branch:cycle",
+                     "reach:returned:simplify=True", "reach:returned:simplify=False",
+                     "reach:returned:keep=True", "reach:returned:keep=False",
+                     "reach:returned:tactic1", "reach:returned:tactic2", "reach:returned:tactic3",
+                     "reach:rejected:feedback", "reach:rejected:keep", "reach:rejected:eliminate"],
+        "assumptions": [NUM, TB, "operands are constructed with the default simplification and snapshotted after "
+                        "construction; all variables are free in the oracle query"],
+        "soft_s": {"quick": 200, "thorough": 3000},
+    },
 }
